@@ -7,6 +7,7 @@ import Sentinel.DriverC12
 import Sentinel.DriverC17
 import Sentinel.DriverC18
 import Sentinel.DriverC20
+import Sentinel.DriverConc
 /-! Generic driver: reads a trace (`case <id>` headers, `<op> -> <obs>` lines) from stdin, checks
 every case with the property's `checkCase`, prints one line per case. -/
 namespace Sentinel
@@ -18,6 +19,7 @@ def checkerFor (prop : String) : Option (List (String × String) → Verdict) :=
   | "C10" => some DriverC10.checkCase
   | "C12" => some DriverC12.checkCase
   | "C13" => some DriverC13.checkCase
+  | "C14" | "C15" | "C16" => some (DriverConc.checkCaseFor prop)
   | "C17" => some DriverC17.checkCase
   | "C18" => some DriverC18.checkCase
   | "C20" => some DriverC20.checkCase
